@@ -105,7 +105,7 @@ def run(ctx: core.Ctx):
     fl = core.import_fuzzylite()
     rng = random.Random(ctx.seed)
     q = ctx.quick
-    head = "SPECIFICATION Spec\nCONSTANTS KMax = {k}\n  WithNaN = {n}\n  Emit = {e}\n  TieReversed = {t}\n"
+    head = "SPECIFICATION Spec\nCONSTANTS KMax = {k}\n  WithNaN = {n}\n  Emit = {e}\n  TieReversed = {t}\n  BigK = 0\n"
     if not q:
         ctx.expect_holds(ctx.tlc("MC_Activations", write_cfg("MC_Activations4", head.format(k=4, n="FALSE", e="FALSE", t="FALSE") + "".join(f"INVARIANT {i}\n" for i in INVS) + "CHECK_DEADLOCK FALSE\n"), workers=16, timeout=3400), "MC_Activations")
     ctx.expect_canary(ctx.tlc("MC_Activations", write_cfg("MC_Activations_canary", head.format(k=2, n="FALSE", e="FALSE", t="TRUE") + "INVARIANT MachineEqualsSelection\nCHECK_DEADLOCK FALSE\n"), workers=8), "TieReversed")
@@ -113,6 +113,13 @@ def run(ctx: core.Ctx):
     ctx.expect_holds(gens[0], "MC_Activations")
     gens.append(ctx.tlc("MC_Activations", write_cfg("Gen_Activations_nan", head.format(k=2, n="TRUE", e="TRUE", t="FALSE") + "INVARIANT MachineEqualsSelection\nINVARIANT EmitInv\nCHECK_DEADLOCK FALSE\n"), workers=16, timeout=3400))
     ctx.expect_holds(gens[1], "MC_Activations[NaN]")
+    # large blocks with many equal degrees: an ordering that is only unstable, a heap that only misbehaves, beyond sixteen rules (Engine.ActivateBlock on 70 rules does not finish in TLC: 20 and 34 do)
+    for bk in ((20,) if q else (20, 34)):
+        gb = ctx.tlc("MC_Activations", write_cfg(f"Gen_Activations_big{bk}", head.format(k=3, n="FALSE", e="TRUE", t="FALSE").replace("BigK = 0", f"BigK = {bk}") + "".join(f"INVARIANT {i}\n" for i in INVS) + "INVARIANT EmitInv\nCHECK_DEADLOCK FALSE\n"), workers=16, timeout=3400)
+        ctx.expect_holds(gb, f"MC_Activations[{bk} rules]")
+        if len(gb.emitted) < 100:
+            raise MachineryError(f"only {len(gb.emitted)} large-block cases")
+        gens.append(gb)
     engines = {}
     n = 0
     prev_case = None
